@@ -501,7 +501,8 @@ func (s *serverStream) SetTrailer(md metadata.MD) {
 	s.wmu.Lock()
 	defer s.wmu.Unlock()
 
-	s.tr = append(s.tr, md)
+	// copy: the handler may reuse or edit md after this call returns
+	s.tr = append(s.tr, md.Copy())
 }
 
 func (s *serverStream) Context() context.Context {
